@@ -315,7 +315,8 @@ def _validated_upstream(prog, f, n):
     if not a:
         return None
     root, names = SX.member_chain(a[0])
-    if names[-1:] != ['value']:
+    arg = SX.strip(a[0])
+    if names[-1:] != ['value'] or not (SX.is_node(arg) and arg.get('k') == 'member' and arg.get('q', '').endswith('AnnotationNode::value')):
         return None
     for g in prog.fns('Parser::parseFunctionAnnotation'):
         esc = Escape(prog, [g])
@@ -324,7 +325,7 @@ def _validated_upstream(prog, f, n):
                 ok, _ = esc.protected(ff, site, types)
                 targ = SX.real_args(site)[0]
                 # the same token's text is what is stored into the annotation
-                stores = [x for x in SX.walk(g.body) if (lambda w: w and w[1] is not None and SX.member_chain(w[0])[1][-1:] == ['value'] and any(
+                stores = [x for x in SX.walk(g.body) if (lambda w: w and w[1] is not None and SX.is_node(SX.strip(w[0])) and SX.strip(w[0]).get('q', '').endswith('AnnotationNode::value') and any(
                     SX.show(y) == SX.show(targ) for y in SX.walk(w[1])))(SX.write_target(x))]
                 if ok and stores:
                     return 'Parser::parseFunctionAnnotation converts the same text under try and rejects it'
